@@ -5,13 +5,18 @@ package session
 import (
 	"bytes"
 	"context"
+	"crypto/ed25519"
+	"crypto/rand"
 	"crypto/tls"
+	"crypto/x509"
+	"crypto/x509/pkix"
 	"encoding/base64"
 	"encoding/hex"
 	"encoding/json"
 	"errors"
 	"fmt"
 	"io"
+	"math/big"
 	"net"
 	"os"
 	"runtime"
@@ -382,6 +387,15 @@ func BuildMsg(m int, cfg Cfg, failing bool) (*mail.Msg, error) {
 			return int64(n), err
 		})
 	}
+	if rf == "failSign" { // S/MIME signing fails when the message is rendered: WriteTo returns 0 bytes and an error
+		key, cert, err := unsignableMaterial()
+		if err != nil {
+			return nil, err
+		}
+		if err = msg.SignWithKeypair(key, cert, nil); err != nil {
+			return nil, fmt.Errorf("SignWithKeypair refused the key already: %w", err)
+		}
+	}
 	if rf == "failAtt" {
 		msg.AttachReadSeeker("data.bin", &failSeeker{})
 	} else if rf == "failAttEOF" {
@@ -394,6 +408,34 @@ func BuildMsg(m int, cfg Cfg, failing bool) (*mail.Msg, error) {
 		msg.AttachReadSeeker("data.bin", bytes.NewReader(att))
 	}
 	return msg, nil
+}
+
+var (
+	unsignOnce sync.Once
+	unsignKey  ed25519.PrivateKey
+	unsignCert *x509.Certificate
+	unsignErr  error
+)
+
+// unsignableMaterial is a key pair SignWithKeypair accepts but the PKCS#7 signer cannot sign with (Ed25519).
+func unsignableMaterial() (ed25519.PrivateKey, *x509.Certificate, error) {
+	unsignOnce.Do(func() {
+		pub, priv, err := ed25519.GenerateKey(rand.Reader)
+		if err != nil {
+			unsignErr = err
+			return
+		}
+		tpl := &x509.Certificate{SerialNumber: big.NewInt(77), Subject: pkix.Name{CommonName: "verif ed25519"},
+			NotBefore: time.Now().Add(-time.Hour), NotAfter: time.Now().Add(240 * time.Hour), KeyUsage: x509.KeyUsageDigitalSignature}
+		der, err := x509.CreateCertificate(rand.Reader, tpl, tpl, pub, priv)
+		if err != nil {
+			unsignErr = err
+			return
+		}
+		unsignKey = priv
+		unsignCert, unsignErr = x509.ParseCertificate(der)
+	})
+	return unsignKey, unsignCert, unsignErr
 }
 
 func attachment(m int) []byte {
